@@ -215,6 +215,68 @@ def senderSeq (E : Ecdsa) (H : Bytes → Bytes) (t : Tx) : Cache → List Signer
   | _, [] => []
   | c, sg :: rest => let (res, c') := senderCached E H c sg t; res :: senderSeq E H t c' rest
 
+/-! ### the transaction OBJECT: data + the three caches (hash, size, from) -/
+
+/-- `types.Transaction`: `data` and the atomic.Value caches `hash`, `size`, `from` (`none` = not yet stored). -/
+structure TxObj where
+  data : Tx
+  hashC : Option Bytes
+  sizeC : Option Nat
+  fromC : Cache
+
+/-- a freshly built object (NewTransaction / a decoder's `*tx = Transaction{data: dec}`): empty caches.
+    (DecodeRLP also stores the size of the list it read, which is the size of the encoding: `ObjOK` covers it.) -/
+def TxObj.fresh (t : Tx) : TxObj := ⟨t, none, none, none⟩
+
+/-- tx.Hash(). -/
+def objHash (H : Bytes → Bytes) (o : TxObj) : Bytes × TxObj :=
+  match o.hashC with
+  | some h => (h, o)
+  | none => let h := txHash H o.data; (h, { o with hashC := some h })
+
+/-- tx.Size(). -/
+def objSize (o : TxObj) : Nat × TxObj :=
+  match o.sizeC with
+  | some n => (n, o)
+  | none => let n := (encodeTx o.data).length; (n, { o with sizeC := some n })
+
+/-- types.Sender(signer, tx) on the object. -/
+def objSender (E : Ecdsa) (H : Bytes → Bytes) (o : TxObj) (sg : Signer) : Except Err Bytes × TxObj :=
+  let (res, c') := senderCached E H o.fromC sg o.data
+  (res, { o with fromC := c' })
+
+/-- tx.WithSignature: `cpy := &Transaction{data: tx.data}` — a NEW object whose caches are empty, whatever the old one held. -/
+def objWithSignature (sg : Signer) (o : TxObj) (r s rid : Nat) : TxObj :=
+  TxObj.fresh (withSignature sg o.data r s rid)
+
+inductive Op
+  | hash
+  | size
+  | sender (sg : Signer)
+  | withSig (sg : Signer) (r s rid : Nat)     -- continue on the object WithSignature returns
+
+inductive Obs
+  | hash (h : Bytes)
+  | size (n : Nat)
+  | sender (r : Except Err Bytes)
+  | resigned
+
+/-- a life of operations on one object (following the new object after each WithSignature). -/
+def runOps (E : Ecdsa) (H : Bytes → Bytes) : TxObj → List Op → List Obs
+  | _, [] => []
+  | o, .hash :: rest => let (h, o') := objHash H o; .hash h :: runOps E H o' rest
+  | o, .size :: rest => let (n, o') := objSize o; .size n :: runOps E H o' rest
+  | o, .sender sg :: rest => let (r, o') := objSender E H o sg; .sender r :: runOps E H o' rest
+  | o, .withSig sg r s rid :: rest => .resigned :: runOps E H (objWithSignature sg o r s rid) rest
+
+/-- the same life without any cache: every observation is a function of the current data. -/
+def pureOps (E : Ecdsa) (H : Bytes → Bytes) : Tx → List Op → List Obs
+  | _, [] => []
+  | t, .hash :: rest => .hash (txHash H t) :: pureOps E H t rest
+  | t, .size :: rest => .size (encodeTx t).length :: pureOps E H t rest
+  | t, .sender sg :: rest => .sender (senderOf E H sg t) :: pureOps E H t rest
+  | t, .withSig sg r s rid :: rest => .resigned :: pureOps E H (withSignature sg t r s rid) rest
+
 /-! ### MakeSigner -/
 
 /-- params.isForked(s, head). -/
